@@ -42,6 +42,7 @@ CONSTANTS NI0, NI1,    \* interval ids per year file
           ChunkCodes,  \* set of chunk codes to enumerate when UseSample = FALSE.  A chunk code has the decimal
                        \* digits c_1..c_NI0: the read-buffer chunk of every year-0 interval id, counted back from
                        \* the end of the year file (cfg files cannot hold tuples)
+          NMax,        \* limit mode: largest row limit N (N ranges over 1..min(rows + 1, NMax))
           ColMax,      \* multi mode: longest column list
           UseSample,   \* FALSE: every stored content; TRUE: only the contents listed in Sample
           Sample,      \* set of codes: z0 + 2*[fixed] + 4*[daily] + 8 * SUM count(i, o) * (Dup+1)^((i-1)*NO + o)
@@ -286,7 +287,7 @@ StoredSet == IF UseSample
                                 : tc \in Classes} : k \in Kinds}
 Bounds(z) == {p \in Positions : ValidPos(p, z)}
 RangeQueries(z) == [s : Bounds(z), e : Bounds(z), n : {0}, dir : {"first"}]
-LimitQueries(c, z) == UNION {[s : {b[1]}, e : {b[2]}, n : 1..(Len(AbsRange(c, b[1], b[2], z)) + 1), dir : {"first", "last"}]
+LimitQueries(c, z) == UNION {[s : {b[1]}, e : {b[2]}, n : 1..Min({Len(AbsRange(c, b[1], b[2], z)) + 1, NMax}), dir : {"first", "last"}]
                                : b \in Bounds(z) \X Bounds(z)}
 \* multi mode: the bucket of A is st, B is chosen, C is the complement of B; a handful of query shapes
 MultiQueries == {[s |-> 0, e |-> LastPos, n |-> 0, dir |-> "first"],
